@@ -46,8 +46,13 @@ partial def expandToks : List String → List Int
   | t :: rest => toInt t :: expandToks rest
   | [] => []
 
-/-- the observation stream is kept ASCII: bytes ≥ 128 in names are shown as `?` -/
-def asciiName (s : String) : String := String.ofList (s.toList.map fun c => if c.toNat < 128 then c else '?')
+/-- names in the hook dump are one word: white space, control and non-ASCII bytes as `\\xHH` -/
+def hexd (n : Nat) : Char := if n < 10 then Char.ofNat (48 + n) else Char.ofNat (87 + n)
+def asciiName (s : String) : String :=
+  if s.isEmpty then "@empty" else
+  String.join (s.toList.map fun c =>
+    let n := c.toNat
+    if n ≤ 32 || n ≥ 127 || c == '\\' then s!"\\x{hexd (n / 16 % 16)}{hexd (n % 16)}" else c.toString)
 
 /-- definition ops: `yaep_read_grammar` through the callbacks -/
 def judgeDefRes (prop : String) (cid : String) (o : Op) (res : Except ErrCode Grammar) (hs : HState) (out : Out) : HState × Out := Id.run do
